@@ -239,10 +239,15 @@ def case_sequence(ctx, p):
                 model.p[op[1]] = op[2]
                 nmut += 1
             elif kind == "set_parameters":
-                obj.set_parameters(dict(op[1]))
+                mine = dict(op[1])
+                obj.set_parameters(mine)
                 model.p.update(op[1])
                 model.coerce_all()
                 nmut += 1
+                # the caller goes on using his own dictionary: that must not reach into the object
+                for k in list(mine):
+                    mine[k] = "overwritten-by-the-caller"
+                mine["added_by_the_caller"] = 1
             elif kind == "set_varylist":
                 vl = [v for v in op[1] if v in model.p and v in model.variable_list]
                 obj.set_varylist(list(vl))
